@@ -3,3 +3,4 @@
 
 pub mod r1;
 pub mod r2;
+pub mod r3;
